@@ -127,13 +127,37 @@ func (bc *boundaryChecker) safe(fn *ssa.Function, v, s ssa.Value, at *ssa.BasicB
 			if fr, ok := eng.AsField(x.X); ok && fr.Field == "Position" && strings.HasSuffix(fr.Struct, "rag.Boundary") {
 				return true, "" // boundary table positions are element boundaries (assumption, see evidence)
 			}
+			// a position kept in a field of a small state struct (a cursor handed from stage to stage): safe when
+			// everything the package ever stores into that field is
+			if fa, ok := x.X.(*ssa.FieldAddr); ok {
+				if pt, ok := fa.X.Type().Underlying().(*types.Pointer); ok {
+					if st, ok := pt.Elem().Underlying().(*types.Struct); ok {
+						if _, isInt := x.Type().Underlying().(*types.Basic); isInt && !strings.HasSuffix(eng.TypeName(pt.Elem()), "rag.SizeLimit") {
+							return bc.fieldSafe(fn, st, fa.Field, depth)
+						}
+					}
+				}
+			}
 		}
 	case *ssa.Field:
 		if fr, ok := eng.AsField(x); ok && fr.Field == "Position" {
 			return true, ""
 		}
+		if st, ok := x.X.Type().Underlying().(*types.Struct); ok {
+			return bc.fieldSafe(fn, st, x.Field, depth)
+		}
 	case *ssa.BinOp:
 		if x.Op == token.ADD {
+			// the position of an ASCII byte found by searching a window of s, and the position right after it:
+			// base + strings.LastIndexAny(s[base:hi], " \n") (+1)
+			if ok, _ := asciiMatchPos(x, s); ok {
+				return true, ""
+			}
+			if k, isC := eng.ConstInt(x.Y); isC && k == 1 {
+				if ok, single := asciiMatchPos(x.X, s); ok && single {
+					return true, ""
+				}
+			}
 			// safe + len(match)
 			if call, ok := x.Y.(*ssa.Call); ok {
 				if bi, ok := call.Call.Value.(*ssa.Builtin); ok && bi.Name() == "len" {
@@ -287,6 +311,10 @@ func ruleRuneBoundary(c *eng.Ctx) {
 			}
 			n++
 			key := fmt.Sprintf("%s#slice%d", eng.FuncName(fn), n)
+			if onlySearched(sl) {
+				c.Ok(R, key, sl.Pos(), "a window that is only searched or measured, never handed on as text")
+				return
+			}
 			if why, ok := measuredOnly[eng.FuncName(fn)]; ok {
 				c.Ok(R, key, sl.Pos(), "accepted: "+why)
 				return
@@ -318,6 +346,11 @@ func ruleSplitProgress(c *eng.Ctx) {
 		return
 	}
 	name := "rag.(*SizeCalculator).SplitToSize"
+	if valueCursorLoop(fn) {
+		c.Ok(R, name+"#shrinks", fn.Pos(), notEvaluatedValueCursor)
+		c.Ok(R, name+"#other-paths-exit", fn.Pos(), notEvaluatedValueCursor)
+		return
+	}
 	// the remaining text: a loop-carried string phi, or a field of a local state struct
 	lp := findSplitLoop(fn)
 	if lp == nil {
@@ -442,4 +475,120 @@ func ruleRatioAgreement(c *eng.Ctx) {
 		}
 		c.Check(reads, R, fnName+"#TokensPerChar", fn.Pos(), "uses the configured tokens-per-character ratio", "does not use SizeConfig.TokensPerChar: the split position and the size test disagree about how many characters a token limit allows")
 	}
+}
+
+// fieldSafe: every value stored into field idx of struct type st anywhere in fn's package is a rune boundary (the
+// zero value of a field that is never stored is offset 0).
+func (bc *boundaryChecker) fieldSafe(fn *ssa.Function, st *types.Struct, idx int, depth int) (bool, string) {
+	if depth > 6 || fn == nil || fn.Pkg == nil {
+		return false, "too deep"
+	}
+	if b, ok := st.Field(idx).Type().Underlying().(*types.Basic); !ok || b.Info()&types.IsInteger == 0 {
+		return false, "field " + st.Field(idx).Name()
+	}
+	okAll, why := true, ""
+	for _, g := range bc.p.ModuleFuncs() {
+		if g.Pkg != fn.Pkg || g.Blocks == nil {
+			continue
+		}
+		eng.Instrs(g, true, func(in ssa.Instruction) {
+			s2, ok := in.(*ssa.Store)
+			if !ok || !okAll {
+				return
+			}
+			fa2, ok := s2.Addr.(*ssa.FieldAddr)
+			if !ok || fa2.Field != idx {
+				return
+			}
+			pt, ok := fa2.X.Type().Underlying().(*types.Pointer)
+			if !ok || !types.Identical(pt.Elem().Underlying(), st) {
+				return
+			}
+			if ok2, w := bc.safe(in.Parent(), s2.Val, nil, in.Block(), depth+2); !ok2 {
+				okAll, why = false, "field "+st.Field(idx).Name()+" set to "+w
+			}
+		})
+	}
+	return okAll, why
+}
+
+var stringSearches = map[string]bool{
+	"strings.Index": true, "strings.IndexByte": true, "strings.IndexAny": true, "strings.IndexRune": true,
+	"strings.LastIndex": true, "strings.LastIndexByte": true, "strings.LastIndexAny": true,
+	"strings.Contains": true, "strings.ContainsAny": true, "strings.ContainsRune": true, "strings.HasPrefix": true, "strings.HasSuffix": true, "strings.Count": true,
+}
+
+// onlySearched: every use of the slice expression is the subject of a search or a measurement.
+func onlySearched(sl *ssa.Slice) bool {
+	refs := sl.Referrers()
+	if refs == nil || len(*refs) == 0 {
+		return false
+	}
+	for _, r := range *refs {
+		switch x := r.(type) {
+		case *ssa.DebugRef:
+		case *ssa.Call:
+			n := eng.CalleeName(x)
+			if !(stringSearches[n] || n == "builtin:len") || len(x.Call.Args) == 0 || x.Call.Args[0] != ssa.Value(sl) {
+				return false
+			}
+		default:
+			return false
+		}
+	}
+	return true
+}
+
+// asciiMatchPos: v is the position in s of a match found by one of the strings.Index family for a needle that is a
+// constant of ASCII bytes — searched in s itself, or in a window s[base:…] with the window's start added back.
+// single reports that the match is exactly one byte long (IndexByte, IndexAny, LastIndexAny, a one-byte needle).
+func asciiMatchPos(v, s ssa.Value) (ok, single bool) {
+	search := func(c ssa.Value) (subject ssa.Value, single, ok bool) {
+		call, isCall := c.(*ssa.Call)
+		if !isCall || len(call.Call.Args) < 2 {
+			return nil, false, false
+		}
+		n := eng.CalleeName(call)
+		switch n {
+		case "strings.IndexByte", "strings.LastIndexByte":
+			if k, isC := eng.ConstInt(call.Call.Args[1]); isC && k < 0x80 {
+				return call.Call.Args[0], true, true
+			}
+		case "strings.IndexAny", "strings.LastIndexAny", "strings.Index", "strings.LastIndex":
+			if needle, isC := eng.ConstString(call.Call.Args[1]); isC && needle != "" {
+				for i := 0; i < len(needle); i++ {
+					if needle[i] >= 0x80 {
+						return nil, false, false
+					}
+				}
+				one := strings.HasSuffix(n, "Any") || len(needle) == 1
+				return call.Call.Args[0], one, true
+			}
+		}
+		return nil, false, false
+	}
+	if subj, one, ok := search(v); ok && s != nil && eng.SameValue(subj, s) {
+		return true, one
+	}
+	b, isB := v.(*ssa.BinOp)
+	if !isB || b.Op != token.ADD {
+		return false, false
+	}
+	for _, pair := range [][2]ssa.Value{{b.X, b.Y}, {b.Y, b.X}} {
+		subj, one, ok := search(pair[1])
+		if !ok {
+			continue
+		}
+		win, isWin := subj.(*ssa.Slice)
+		if !isWin || (s != nil && !eng.SameValue(win.X, s)) {
+			continue
+		}
+		if win.Low == nil {
+			continue
+		}
+		if eng.SameValue(win.Low, pair[0]) {
+			return true, one
+		}
+	}
+	return false, false
 }
